@@ -61,6 +61,7 @@ struct LoopGen {
   bool needRangeForm; // C13 needs chunk sizes
   bool needStates;
   bool needGran;
+  bool allow63; // generate the size class (2^62, 2^63) (C12 only)
 };
 
 void genLoop(Rng& r, KV& kv, const Opts& o, const LoopGen& g) {
@@ -98,12 +99,20 @@ void genLoop(Rng& r, KV& kv, const Opts& o, const LoopGen& g) {
     size = -(i128)r.range(1, 50); // reversed
   else { // huge: only in range-functor form (cost per chunk, not per index)
     form = 1;
-    int bits = (int)r.range(10, 64);
+    // documented domain (ChunkedRange comment): range sizes that fit int64_t. Sizes above 2^62 are a
+    // separate class ("size63") so that a known finding there can be excluded by construction.
+    long maxBits = getenv("VF_MAXBITS") ? atoi(getenv("VF_MAXBITS")) : 62;
+    int bits = (int)r.range(10, maxBits);
     unsigned __int128 u = ((unsigned __int128)r.next()) >> (64 - bits > 0 ? 64 - bits : 0);
     size = (i128)u;
-    if (r.chance(1, 3))
-      size = maxSize - (i128)r.range(0, 3);
+    if (g.allow63 && r.chance(1, 4) && !o.isKnown("size63") && !getenv("VF_NO63")) {
+      size = (i128)INT64_MAX - (i128)r.range(0, 3);
+      if (r.chance(1, 2))
+        size = ((i128)1 << 62) + (i128)(r.next() >> 2);
+    }
   }
+  if (maxSize > (i128)INT64_MAX)
+    maxSize = (i128)INT64_MAX;
   if (size > maxSize)
     size = maxSize;
   // start: edge biased
@@ -140,6 +149,12 @@ void genLoop(Rng& r, KV& kv, const Opts& o, const LoopGen& g) {
   // signed 64-bit: the library's size_type is int64 -> keep end - start <= INT64_MAX (documented limit)
   if (ty == 6 && end - start > (i128)INT64_MAX)
     end = start + (i128)INT64_MAX;
+  if (end - start > ((i128)1 << 62)) {
+    if (g.allow63 && !o.isKnown("size63") && !getenv("VF_NO63"))
+      kv.set("sigclass", "size63"); // failures of this input class are reported under one signature
+    else
+      end = start + ((i128)1 << 62);
+  }
   kv.set("s", s128(start));
   kv.set("e", s128(end));
   kv.set("chunking", chunking);
@@ -180,34 +195,34 @@ void genLoop(Rng& r, KV& kv, const Opts& o, const LoopGen& g) {
 }
 
 void genC12n(Rng& r, KV& kv, const Opts& o) {
-  genLoop(r, kv, o, LoopGen{false, false, false, false});
+  genLoop(r, kv, o, LoopGen{false, false, false, false, true});
 }
 void genC12e(Rng& r, KV& kv, const Opts& o) {
-  genLoop(r, kv, o, LoopGen{true, false, false, false});
+  genLoop(r, kv, o, LoopGen{true, false, false, false, false});
 }
 void genC13n(Rng& r, KV& kv, const Opts& o) {
-  genLoop(r, kv, o, LoopGen{false, true, false, true});
+  genLoop(r, kv, o, LoopGen{false, true, false, true, false});
   if (kv.i("chunking") == 2)
     kv.set("chunking", r.range(0, 1));
 }
 void genC13e(Rng& r, KV& kv, const Opts& o) {
-  genLoop(r, kv, o, LoopGen{true, true, false, true});
+  genLoop(r, kv, o, LoopGen{true, true, false, true, false});
   if (kv.i("chunking") == 2)
     kv.set("chunking", r.range(0, 1));
 }
 void genC14n(Rng& r, KV& kv, const Opts& o) {
-  genLoop(r, kv, o, LoopGen{false, false, true, false});
+  genLoop(r, kv, o, LoopGen{false, false, true, false, false});
 }
 void genC14e(Rng& r, KV& kv, const Opts& o) {
-  genLoop(r, kv, o, LoopGen{true, false, true, false});
+  genLoop(r, kv, o, LoopGen{true, false, true, false, false});
 }
 void genC48e(Rng& r, KV& kv, const Opts& o) {
-  genLoop(r, kv, o, LoopGen{true, false, false, false});
+  genLoop(r, kv, o, LoopGen{true, false, false, false, false});
   kv.set("maxT", r.range(0, kv.i("n") + 1));
   kv.set("burn", r.range(2, 8));
 }
 void genC48n(Rng& r, KV& kv, const Opts& o) {
-  genLoop(r, kv, o, LoopGen{false, false, false, false});
+  genLoop(r, kv, o, LoopGen{false, false, false, false, false});
   kv.set("maxT", r.range(0, kv.i("n") + 1));
   kv.set("burn", r.pick<long>({50, 400, 2000}));
 }
